@@ -496,8 +496,16 @@ impl EventGen for Tag {
             }
             Tag::Leaf(el, tail) => {
                 let mut el = el.clone();
-                context.apply_defaults(&mut el);
-                let (ev, bb) = el.generate_events(context)?;
+                // An empty <svg/> in the SVG namespace is passed through untouched,
+                // just as one with content is (see `Container`).
+                let (ev, bb) = if el.name == "svg"
+                    && el.get_attr("xmlns").as_deref() == Some("http://www.w3.org/2000/svg")
+                {
+                    (el.all_events(context).into_raw_output(), None)
+                } else {
+                    context.apply_defaults(&mut el);
+                    el.generate_events(context)?
+                };
                 (events, bbox) = (ev, bb);
                 if let (Some(tail), false) = (tail, events.is_empty()) {
                     events.push(OutputEvent::Text(tail.to_owned()));
